@@ -143,6 +143,10 @@ def run_all(chk, fsets, tier):
         chk.rule("W4.numeric", floor=250 if i == 0 else 0,
                  doc="E3: every MIR assert, shift range, call precondition, reachable panic and the invariant 1 <= space_left <= W at every return, for W in {8,16,32,64,128}")
         rn.run_specs(chk, F, specs, "W4.numeric", fs)
+        import rules_bits
+        chk.rule("W4.layout", floor=40 if i == 0 else 0,
+                 doc="bit-range domain: every OR that builds the buffer or a delivered word combines provably disjoint bit ranges (the masked/shifted argument occupies exactly the n freed positions whatever its high bits are); the word written by flush has zeros in its padding positions")
+        rules_bits.run_writer_layout(chk, F, fs)
         import rules_effects as re_
         re_.run_writer_effects(chk, F, fs)
     chk.trust("rustc MIR construction and the mirx exporter")
